@@ -215,7 +215,8 @@ def emitLineUnchanged (m : M) (l : L) : M :=
 
 /-- `write_generic_diff_header_header_line` -/
 def writeGeneric (cfg : Cfg) (m : M) (text raw : Str) : M :=
-  if cfg.fileStyle.isOmitted ∧ ¬ cfg.colorOnly then m
+  -- the early return: nothing is written; the mode information belongs to this file and is dropped with its header
+  if cfg.fileStyle.isOmitted ∧ ¬ cfg.colorOnly then { m with modeInfo := [] }
   else
     let blank : List Row := if cfg.colorOnly then [] else [{ kind := .blank, text := [], src := m.n }]
     let m1 := direct m (blank ++ drawRows cfg.fileStyle .file text raw m.modeInfo m.n)
